@@ -29,7 +29,7 @@ def dstep (s : DSt) (toks : List String) : DSt × String :=
     match r with
     | ["arity", _] => (s, "ok")
     | ["hook", e, m] => let (x, o) := Events.stepLine s.ar ["hook", e, m, "sync"]; ({ s with ar := x }, o)
-    | ["new", _] | ["unhook", _] | ["trigger", _, _] | ["link", _, _] | ["unlink", _] | ["tcount", _] =>
+    | ["hook", _, _, _] | ["new", _, "pool"] | ["new", _] | ["unhook", _] | ["trigger", _, _] | ["link", _, _] | ["unlink", _] | ["tcount", _] =>
       let (x, o) := Events.stepLine s.ar r; ({ s with ar := x }, o)
     | _ => (s, "bad-op")
   | "pr" :: r => let (x, o) := Promise.stepLine s.pr r; ({ s with pr := x }, o)
